@@ -47,6 +47,14 @@ def Th.isDone {K : Type} : Th K → Bool
   | .done => true
   | _ => false
 
+/-- a thread that has not taken a step yet -/
+def Th.isStart {K : Type} [DecidableEq K] : Th K → Bool
+  | .wExists _ _ all todo [] => decide (all = todo.flatten)
+  | .dGetMeta _ => true
+  | .gScan _ => true
+  | .fScanMeta => true
+  | _ => false
+
 section
 variable {K : Type} [DecidableEq K] (h : List Nat → K)
 
